@@ -388,8 +388,10 @@ func (p *Path) callSSA(caller *frame, callpos token.Pos, fn *ssa.Function, args 
 	p.calls[fn]++
 	if fn.Parent() == nil {
 		name := fn.String()
-		if st, ok := p.stubs[name]; ok && st != fn {
-			return p.callSSA(caller, callpos, st, args, nil)
+		if st, ok := p.stubs[name]; ok {
+			if sf, isFn := st.(*ssa.Function); !isFn || sf != fn {
+				return p.call(caller, callpos, st, args)
+			}
 		}
 		if r, ok := p.intrinsic(caller, fn, name, args); ok {
 			return r
